@@ -28,8 +28,10 @@ def check_case(case, acc=None):
     return out, ref, got
 
 
-def _consume(acc, seq, spelling):
+def _consume(acc, seq, spelling, fam=None):
     case = {"kind": "delta", "seq": seq, "spelling": spelling}
+    if fam is not None:
+        case.update(family=fam[0], index=fam[1])
     v, ref, got = check_case(case)
     acc.states += 1
     acc.transitions += 1
@@ -76,6 +78,11 @@ def shard(s):
             for unit in ("+", "-", "0", "+-", "+0-", "++--00"):
                 inner = (unit * (N // len(unit) + 1))[:N - 6]
                 _consume(acc, R.spell_rotating(ends + inner + ends[::-1], N), "rot")
+    elif kind == "PAD":
+        from ..engines.history import fresh_world
+        fresh_world()
+        for i, pat in enumerate(spaces.padded_cores()):
+            _consume(acc, R.spell_rotating(pat, len(pat) % 3), "rot", ("PAD", i))
     elif kind == "DB":
         for pat in spaces.window_complete_chunks(R.SYM, 6, s[1]):
             _consume(acc, R.spell_rotating(pat, len(pat)), "rot")
@@ -95,6 +102,7 @@ def run(tier, seed, t0):
     shards += [("R", N, 3) for N in range(RN, 4, -1)]
     LN = (64, 128, 200, 256) if tier == "quick" else (64, 127, 128, 129, 200, 256, 300, 400, 512, 700, 1000)
     shards += [("LONG", N) for N in LN]
+    shards += [("PAD",)]
     shards += [("DB", (L_,)) for L_ in ((23, 47, 97) if tier == "quick" else (17, 23, 31, 47, 61, 97, 150, 301))]
     shards += [("ENDS", N) for N in ((1100,) if tier == "quick" else (1001, 1100, 1500))]
     SC = 300 if tier == "quick" else 600
@@ -104,7 +112,7 @@ def run(tier, seed, t0):
         PROP, tier, seed, acc, t0,
         rule="every charge pattern over {+,-,0} of length 1..%d (K/E/G spelling), every pattern of length 1..%d in 16 "
              "covering spellings + 1 rotating spelling (all 20 residues occur), every pattern of length 5..%d with <=3 "
-             "runs, and a structured family of long patterns (homopolymers, 2/3-block, periodic) at lengths %s, and EVERY length 1..%d in strictly ascending and descending order in a freshly imported package (5 patterns per length); each is one real SequenceParameters(seq).get_delta() call compared with exact Fraction evaluation "
+             "runs, and a structured family of long patterns (homopolymers, 2/3-block, periodic) at lengths %s, and EVERY length 1..%d in strictly ascending and descending order in a freshly imported package (5 patterns per length), and shared-core families (6 irregular cores x every combination of 0/1/3/8 neutral residues on either side, in a fresh package); each is one real SequenceParameters(seq).get_delta() call compared with exact Fraction evaluation "
              "of the definition; non-trivial = reference delta > 0; outcomes = distinct reference delta values" % (L, L2, RN, list(LN), SC),
         bounds={"L_base": L, "L_spellings": L2, "runlength_N": RN, "runs": 3, "tolerance_abs": TOL},
         assumptions=["reference model vmc/refmodel/charge.py states the property's definition; residue charge classes "
@@ -112,4 +120,7 @@ def run(tier, seed, t0):
 
 
 def replay(case):
+    if case.get("family") == "PAD":      # the whole family up to this member, in order, in the (fresh) world
+        for pat in spaces.padded_cores()[:case["index"]]:
+            check_case({"kind": "delta", "seq": R.spell_rotating(pat, len(pat) % 3), "spelling": "rot"})
     return check_case(case)[0]
